@@ -1,0 +1,9 @@
+//go:build verif
+
+package vm
+
+// VerifRefs is a read-only accessor of the VM's own stack item counter
+// (build tag `verif` only).
+func (v *VM) VerifRefs() int {
+	return int(v.refs)
+}
